@@ -8,6 +8,7 @@ without Current / with a wrong Current hash; the i-th write, the open and the fi
 (fault injection by patching module attributes from here, not in /repo).
 """
 import gzip
+import io
 import hashlib
 import os
 import random
@@ -286,7 +287,13 @@ def run(ctx):
                         restore.append(lambda: delattr(real, "open"))
                 before = read_local(local)
                 try:
-                    result = real.update_file(remote, local)
+                    if rng.random() < 0.3:
+                        import contextlib
+                        with contextlib.redirect_stdout(io.StringIO()), contextlib.redirect_stderr(io.StringIO()):
+                            result = real.update_file(remote, local, verbose=True)     # progress messages must not change the outcome
+                        desc["verbose"] = True
+                    else:
+                        result = real.update_file(remote, local)
                     err = None
                 except Exception as e:
                     result, err = None, e
